@@ -799,6 +799,37 @@ func recoverGuarded(fn *ssa.Function) bool {
 		}
 		mc, isMC := d.Call.Value.(*ssa.MakeClosure)
 		if !isMC {
+			// `defer recoverAsError(&err, "…")`: a function of the repository that is deferred directly (so that its
+			// recover() is effective), recovers, and stores a non-nil error through its *error parameter — which the
+			// defer binds to the address of this function's error result
+			h := d.Call.StaticCallee()
+			if h == nil || !isRepoFn(h) || len(h.Blocks) == 0 {
+				return
+			}
+			pi := -1
+			for i, p := range h.Params {
+				if pt, isP := p.Type().(*types.Pointer); isP && pt.Elem().String() == "error" {
+					pi = i
+				}
+			}
+			if pi < 0 || pi >= len(d.Call.Args) {
+				return
+			}
+			if _, isCell := d.Call.Args[pi].(*ssa.Alloc); !isCell {
+				return
+			}
+			hasRecover, setsErr := false, false
+			eachInstr(h, func(r2 instrRef) {
+				if isBuiltinCall(r2.I, "recover") {
+					hasRecover = true
+				}
+				if st, isSt := r2.I.(*ssa.Store); isSt && st.Addr == ssa.Value(h.Params[pi]) && !isNilConst(st.Val) {
+					setsErr = true
+				}
+			})
+			if hasRecover && setsErr {
+				ok = true
+			}
 			return
 		}
 		clo, _ := mc.Fn.(*ssa.Function)
@@ -1076,6 +1107,60 @@ func (c *Ctx) checkForceCloseCannotFail() (bool, string) {
 				f := loadedField(call.Call.Args[0])
 				return f != nil && fieldName(f) == "closed"
 			})
+			isClosedLoad := func(cond ssa.Value) bool {
+				call, ok := cond.(*ssa.Call)
+				if !ok || calleeName(call.Common()) != "(*sync/atomic.Bool).Load" {
+					return false
+				}
+				f := loadedField(call.Call.Args[0])
+				return f != nil && fieldName(f) == "closed"
+			}
+			if guarded == nil {
+				// the critical section lives in a helper that hands the component errors back: the error return is on the
+				// `x != nil` edge of a result of that helper, and the helper returns a non-nil value in that position only
+				// behind its own closed-flag early exit
+				viaHelper := guardedBy(s.ret, true, func(cond ssa.Value) bool {
+					b, ok := cond.(*ssa.BinOp)
+					if !ok || b.Op != token.NEQ || !isNilConst(b.Y) {
+						return false
+					}
+					ex, ok := b.X.(*ssa.Extract)
+					if !ok {
+						return false
+					}
+					call, ok := ex.Tuple.(*ssa.Call)
+					if !ok {
+						return false
+					}
+					h := call.Common().StaticCallee()
+					if h == nil || !isRepoFn(h) || len(h.Blocks) == 0 {
+						return false
+					}
+					okH, nRet := true, 0
+					eachInstr(h, func(r2 instrRef) {
+						ret, isRet := r2.I.(*ssa.Return)
+						if !isRet {
+							return
+						}
+						nRet++
+						res := retResults(ret)
+						if ex.Index >= len(res) {
+							okH = false
+							return
+						}
+						if isNilConst(res[ex.Index]) {
+							return
+						}
+						if guardedBy(ret, false, isClosedLoad) == nil {
+							okH = false
+						}
+					})
+					return okH && nRet > 0
+				}) != nil
+				if viaHelper {
+					guarded = &ssa.If{}
+				}
+			}
 			if guarded == nil {
 				okAll = false
 				details = append(details, fmt.Sprintf("%s: error returned at %s is not behind the closed-flag early exit", c.fnName(s.fn), c.instrPos(s.ret)))
